@@ -512,6 +512,8 @@ def register(E):
                          "(A-HOOKFRAME)")
     del TEARDOWN['rules']['CanNotTearDown']
     register_sort_key(E)
+    from contracts.runner_order import purity
+    purity(E)
     E.add_contract('runner.layer_sort_key', SORT_KEY)
     E.add_contract('runner.layer_sort_key._gather', GATHER_KEY)
     E.add_contract('runner.gather_layers', GATHER)
